@@ -644,3 +644,22 @@ package silence
 //@   loop 1 invariant count("marshalMeshSilence") == len(visited) && count("Buffer).Write") == len(visited) && (called("marshalMeshSilence") ==> ret1("marshalMeshSilence") == nil)
 //@   loop 1 invariant (forall k string :: (k in visited) ==> (k in s)) && dom(s) == old(dom(s))
 //@   noeffect marshalMeshSilence Buffer).Write
+
+// the snapshot and the push/pull message are the full state, read under the store's read lock
+//@ func (*Silences).Snapshot
+//@   props C11
+//@   nosafe
+//@   ensures [monitor-lock-released] count("RWMutex).RLock") == 1 && count("RWMutex).RUnlock") == 1
+//@   at call state).MarshalBinary assert [state-of-this-store-under-lock] arg0 == s.st && count("RWMutex).RLock") == 1 && count("RWMutex).RUnlock") == 0
+//@   at call bytes.NewReader assert [copy-the-encoding] arg0 == ret("state).MarshalBinary") && ret1("state).MarshalBinary") == nil
+//@   at call io.Copy assert [into-the-given-writer] arg0 == w
+//@   ensures [encoding-error-writes-nothing] called("state).MarshalBinary") && ret1("state).MarshalBinary") != nil ==> result1 == ret1("state).MarshalBinary") && !called("io.Copy")
+//@   ensures [write-result-reported] called("io.Copy") ==> result0 == ret("io.Copy") && result1 == ret1("io.Copy")
+//@   noeffect state).MarshalBinary
+//@ func (*Silences).MarshalBinary
+//@   props C09 C10 C19
+//@   nosafe
+//@   ensures [monitor-lock-released] count("RWMutex).RLock") == 1 && count("RWMutex).RUnlock") == 1
+//@   at call state).MarshalBinary assert [state-of-this-store-under-lock] arg0 == s.st && count("RWMutex).RLock") == 1 && count("RWMutex).RUnlock") == 0
+//@   ensures [full-state] result0 == ret("state).MarshalBinary") && result1 == ret1("state).MarshalBinary")
+//@   noeffect state).MarshalBinary
